@@ -119,3 +119,107 @@ Section MutEdge.
       rewrite (GP (snd m)) in G by (apply MR; apply in_app_iff; left; exact Hm). now inversion G.
   Qed.
 End MutEdge.
+
+(* ---- every mutation is assigned when the table is sorted by site ---- *)
+Definition msite (m : Z * Z) : Z := fst m.
+
+(* the remaining mutations all belong to remaining sites *)
+Definition covered (sites muts : list (Z * Z)) : Prop :=
+  forall m, In m muts -> exists ip, In ip sites /\ fst ip = msite m.
+
+Lemma muts_of_site_rest nem sid : forall muts es' rest,
+  muts_of_site nem sid muts = Ok (es', rest) -> sorted_by msite muts ->
+  (forall m, In m muts -> sid <= msite m) ->
+  sorted_by msite rest /\ forall m, In m rest -> sid < msite m.
+Proof.
+  induction muts as [|[s nd] r IH]; intros es' rest H S G; simpl in H.
+  - inversion H; subst. split; [constructor | intros ? []].
+  - apply sorted_by_inv in S as [S1 S2].
+    destruct (s =? sid) eqn:E.
+    + bind_inv H. bind_inv H. destruct a0 as [es0 rest0]. inversion H; subst.
+      eapply IH; eauto. intros m Hm. apply G. right; exact Hm.
+    + apply Z.eqb_neq in E. inversion H; subst. split; [constructor; [exact S1 | apply Forall_forall; exact S2]|].
+      assert (sid < s) by (specialize (G (s, nd) (or_introl eq_refl)); unfold msite in G; simpl in G; lia).
+      intros m [<-|Hm]; [unfold msite; simpl; lia|]. specialize (S2 m Hm). unfold msite in *. simpl in S2. lia.
+Qed.
+
+Lemma sites_of_tree_rest nem tr : forall sites muts ids mes sr mr,
+  sites_of_tree nem tr sites muts = Ok (ids, mes, sr, mr) ->
+  sorted_by msite muts -> StronglySorted (fun a b => fst a < fst b) sites -> covered sites muts ->
+  sorted_by msite mr /\ covered sr mr /\ StronglySorted (fun a b => fst a < fst b) sr.
+Proof.
+  induction sites as [|[sid pos] r IH]; intros muts ids mes sr mr H S SS C; simpl in H.
+  - inversion H; subst. auto.
+  - destruct (pos <? tr).
+    + bind_inv H. destruct a as [me muts']. bind_inv H. destruct a as [[[ids' mes'] sr'] mr'].
+      inversion H; subst. clear H.
+      apply StronglySorted_inv in SS as [SS1 SS2]. rewrite Forall_forall in SS2.
+      assert (G : forall m, In m muts -> sid <= msite m).
+      { intros m Hm. destruct (C m Hm) as (ip & [<-|Hip] & Eq); [simpl in Eq; lia|].
+        specialize (SS2 ip Hip). simpl in SS2. lia. }
+      destruct (muts_of_site_rest _ _ _ _ _ E S G) as [S' G'].
+      destruct (muts_of_site_spec _ _ _ _ _ E) as (a & EA & _).
+      eapply IH; eauto.
+      intros m Hm. assert (Hm' : In m muts) by (rewrite EA; apply in_app_iff; right; exact Hm).
+      destruct (C m Hm') as (ip & [<-|Hip] & Eq); [specialize (G' m Hm); simpl in Eq; lia|].
+      exists ip. auto.
+    + inversion H; subst. auto.
+Qed.
+
+Lemma SS_filter {A} (R : A -> A -> Prop) f l : StronglySorted R l -> StronglySorted R (filter f l).
+Proof.
+  induction 1 as [|x r S IH F]; simpl; [constructor|]. destruct (f x); [|exact IH].
+  constructor; [exact IH|]. rewrite Forall_forall in *. intros y Hy. apply filter_In in Hy as [Hy _]. auto.
+Qed.
+
+Section MutAll.
+  Variables (L : Z) (ns : list node) (es : list edge) (Ins Rem : list Z) (q : tseq).
+  Hypothesis HV : valid_edges L ns es.
+  Hypothesis HI : index_sorted es Ins Rem.
+  Hypothesis HQ : mk_tseq L ns es Ins Rem = Ok q.
+  Variable S : list (Z * Z).
+  Hypothesis HS : sorted_by spos S.
+  Hypothesis HSid : StronglySorted (fun a b => fst a < fst b) S.
+  Hypothesis HSL : forall ip, In ip S -> spos ip < L.
+
+  Let N := zlen ns.
+  Let esi := es_id es.
+
+  Lemma init_trees_muts_all : forall tl Ins' Rem' steps Oend,
+    chain_ok L tl Ins' Rem' steps Oend -> Forall (sem_step L (q_I q) (q_O q)) steps ->
+    forall nem muts ids mes,
+    PreB N esi nem tl ->
+    (forall m, In m muts -> 0 <= snd m < N) ->
+    sorted_by msite muts -> covered (filter (fun ip => tl <=? spos ip) S) muts ->
+    init_trees_sites steps nem (filter (fun ip => tl <=? spos ip) S) muts = Ok (ids, mes) ->
+    Forall2 (mut_ok es S) muts mes.
+  Proof.
+    induction 1 as [tl I0 O0 C|tl I0 O0 s rest Oend C HL SO SI HR CH IH]; intros F nem muts ids mes Pre MR SM CV HX.
+    - simpl in HX. inversion HX; subst.
+      unfold loop_cond in C. apply orb_false_iff in C as [_ C]. apply Z.ltb_ge in C.
+      destruct muts as [|m r]; [constructor|]. exfalso.
+      destruct (CV m (or_introl eq_refl)) as (ip & Hip & _).
+      apply filter_In in Hip as [Hip Hle]. apply Z.leb_le in Hle. specialize (HSL ip Hip). lia.
+    - inversion F as [|? ? Fs Fr]; subst.
+      pose proof Fs as (_ & _ & _ & _ & B1 & _).
+      simpl in HX. bind_inv HX. bind_inv HX. bind_inv HX. destruct a1 as [[[ids0 mes0] sr] mr].
+      bind_inv HX. destruct a1 as [rids rmes]. inversion HX; subst ids mes. clear HX.
+      rewrite nem_out_eq in E. rewrite nem_in_eq in E0.
+      destruct (step_edge L ns es Ins Rem q HV HI HQ s nem Fs Pre) as (E1' & E2' & R1 & R2 & Pre' & Post).
+      rewrite R1 in E. inversion E; subst a. rewrite R2 in E0. inversion E0; subst a0.
+      destruct (sites_of_tree_sites _ _ _ _ _ _ _ _ E1) as [A B].
+      rewrite (span_lt_sorted (s_left s) (s_right s) S HS ltac:(lia)) in A, B. simpl in A, B.
+      destruct (sites_of_tree_muts _ _ _ _ _ _ _ _ E1) as (c1 & EQ & F1).
+      destruct (sites_of_tree_rest _ _ _ _ _ _ _ _ E1 SM (SS_filter _ _ _ HSid) CV) as (SM' & CV' & _).
+      subst sr muts.
+      apply Forall2_app.
+      + eapply Forall2_impl_in; [|exact F1]. intros m e Hm He [Hin G].
+        rewrite A in Hin. apply in_map_iff in Hin as ([sid pos] & Ef & Hf). simpl in Ef. subst sid.
+        apply filter_In in Hf as [HfS Hft]. unfold in_tree, spos in Hft. simpl in Hft.
+        apply andb_true_iff in Hft as [T1 T2]. apply Z.leb_le in T1. apply Z.ltb_lt in T2.
+        exists pos. split; [exact HfS|].
+        destruct (Post pos ltac:(lia)) as [_ GP].
+        rewrite (GP (snd m)) in G by (apply MR; apply in_app_iff; left; exact Hm). now inversion G.
+      + eapply IH; eauto. intros m Hm. apply MR. apply in_app_iff. right; exact Hm.
+  Qed.
+End MutAll.
